@@ -344,6 +344,54 @@ def r7a(ctx):
         ctx.rules[nid] = rule
 
 
+def totals_gate(ctx, r, prefix="totals"):
+    """Transaction::total_outputs (melstructs) adds with plain `+`.  is_well_formed bounds every value and the fee by 2^120 and the outputs by 255, so a
+    per-denomination total can reach 2^128: with overflow checks the validator panics, without them the total wraps to a small number and the balance
+    comparison of C01.R3 accepts outputs worth 2^127 for nothing.  Necessary: before anything calls total_outputs on a batch member, the batch passed a
+    gate that rejects transactions whose totals do not fit (load_relevant_coins: `output_totals_fit(tx)` false ⇒ Err), and that gate dominates the validation."""
+    prog = ctx.prog
+    lr = ctx.body(AP + "load_relevant_coins", r)
+    gates = [(bi, e) for bi, e in q.call_exprs(lr, "output_totals_fit")]
+    ok_gate = False
+    if gates:
+        gb, ge = gates[0]
+        loops = [l for l in q.loop_nest(lr) if sig(l[3]) == "$2" and gb in l[1]]
+        oks = [bb for bb, e in q.result_blocks(lr)["Ok"]]
+        f = force(lr, {ge: 0})
+        after = f.reach_from(gb)
+        latches = [x for l in loops for x in l[2]]
+        ok_gate = bool(loops) and sig(q.novers(ge[2][0])) == "elem($2)" and not any(x in after for x in latches + oks)
+        if ok_gate and loops:
+            entry = q.loop_entry(lr, loops[0][0], loops[0][1])
+            wo = lr.reachable(entry, removed=[gb])
+            ok_gate = not any(x in wo for x in loops[0][2])       # every transaction of the batch passes the gate
+    r.check(ok_gate, prefix + "/gate", "load_relevant_coins rejects every batch member whose output totals do not fit in u128",
+            "no gate in load_relevant_coins rejects transactions whose per-denomination output totals (plus fee) overflow u128: 255 MEL outputs of 2^120 and a fee of 2^120 "
+            "make total_outputs() panic (overflow checks) or wrap to 0 and balance against a zero-valued input (no overflow checks)", "%s:%s" % (lr.file, lr.line))
+    fit = prog.body("melstf::state::applytx::output_totals_fit")
+    if fit is not None:
+        adds = [e for bi, e in q.all_call_exprs(fit) if e[0] == "call" and e[1].split("::")[-1] == "checked_add"]
+        plain = [t for bi, t in fit.iter_terms("assert") if t["msg"].startswith("Overflow(Add")]
+        r.check(len(adds) >= 2 and not plain, prefix + "/gate/checked", "the gate sums with checked_add (outputs per denomination, then the fee)", "output_totals_fit does not sum with checked_add (%d checked, %d plain additions)" % (len(adds), len(plain)),
+                "%s:%s" % (fit.file, fit.line))
+        s_ = " ".join(sig(e) for e in adds)
+        r.check(".fee" in s_ and ".value" in s_, prefix + "/gate/terms", "it accounts for every output value and the fee", "output_totals_fit sums %s" % s_[:200], "%s:%s" % (fit.file, fit.line))
+    impl = ctx.body(AP + "apply_tx_batch_impl", r)
+    lrc = q.call_exprs(impl, "load_relevant_coins")
+    users = q.effect_sites(prog, impl, "check_tx_validity") + q.effect_sites(prog, impl, "create_next_state")
+    okd = len(lrc) == 1 and bool(users) and all(impl.dominates(lrc[0][0], u[0]) and u[0] != lrc[0][0] for u in users)
+    if okd:
+        f = force(impl, {lrc[0][1]: V(1)})
+        okd = not any(u[0] in f.reach_from(lrc[0][0]) for u in users)
+    r.check(okd, prefix + "/gate/first", "validation and state construction run only after load_relevant_coins(..)? succeeded", "check_tx_validity / create_next_state can run although load_relevant_coins did not succeed",
+            impl.where(lrc[0][0]) if lrc else None)
+
+
+def r9_totals_fit(ctx):
+    r = ctx.rule("R9", "output totals cannot wrap: a batch member whose per-denomination output total (plus fee) does not fit in u128 is rejected before total_outputs() is ever called on it")
+    totals_gate(ctx, r)
+
+
 def shared(ctx):
     """necessary conditions of conservation that are owned by other properties"""
     from rules.engine import core
@@ -355,4 +403,4 @@ def shared(ctx):
     core.import_rules(ctx, [c15.r1_selection_atoms, c15.r2_canonical_keys, c15.r3_swaps, c15.r3_deposits, c15.r3_withdrawals, c15.r5_only_selected], "X15")
 
 
-RULES = [r1_gate_coverage, r2_exemption_table, r3_equality, r4_input_sums, r5_issuance_confinement, r6_floor, r7a, r8_subsidy_peg, shared]
+RULES = [r1_gate_coverage, r2_exemption_table, r3_equality, r4_input_sums, r5_issuance_confinement, r6_floor, r7a, r8_subsidy_peg, r9_totals_fit, shared]
